@@ -392,6 +392,31 @@ func (x *Exec) evalModuleCall(o *types.Func, recvExpr ast.Expr, call *ast.CallEx
 			return IntV{mkFDiv(x.evalInt(call.Args[0], st), x.evalInt(call.Args[1], st))}
 		case "modf":
 			return IntV{mkFMod(x.evalInt(call.Args[0], st), x.evalInt(call.Args[1], st))}
+		case "all", "exists":
+			lo := x.evalInt(call.Args[0], st)
+			hi := x.evalInt(call.Args[1], st)
+			fl, ok := call.Args[2].(*ast.FuncLit)
+			if !ok || !lo.isConst() || !hi.isConst() {
+				unsup("%s needs constant bounds and a function literal", o.Name())
+			}
+			if len(fl.Body.List) != 1 {
+				unsup("%s body must be a single return", o.Name())
+			}
+			ret, ok := fl.Body.List[0].(*ast.ReturnStmt)
+			if !ok || len(ret.Results) != 1 {
+				unsup("%s body must be a single return", o.Name())
+			}
+			pv, _ := x.info().Defs[fl.Type.Params.List[0].Names[0]].(*types.Var)
+			var parts []*Term
+			for k := lo.Int.Int64(); k <= hi.Int.Int64(); k++ {
+				st.vars[pv] = IntV{mkInt(k)}
+				parts = append(parts, x.evalBool(ret.Results[0], st))
+			}
+			delete(st.vars, pv)
+			if o.Name() == "all" {
+				return BoolV{mkAnd(parts...)}
+			}
+			return BoolV{mkOr(parts...)}
 		case "llen":
 			l, ok := x.eval(call.Args[0], st).(*ListV)
 			if !ok {
